@@ -152,6 +152,17 @@ for _pid, (_t, _x) in EXTRA5.items():
     tech, text, note, ref = CLAIMED[_pid]
     CLAIMED[_pid] = (tech + _t, text + _x, note, ref)
 
+EXTRA6 = {
+ "C01": ("; reader-slot pairing (C06-a) as part of 'every named input is read'", ""),
+ "C02": ("; matcher-verbatim rule on methods shadowing the embedded regexp", " Also: the regexp wrapper cannot drop capture groups behind the published name table."),
+ "C07": ("; who-may-delete rule (entries are removed by trimming only)", " Also: sampling never removes a cell."),
+ "C10": ("; touch-index rule (context touches use a negative constant index)", " Also: the touch of {time live}/{time delta} is one that wrapping contexts forward."),
+ "C13": ("; time-precision lint in the sorting package", " Also: dates are ordered at full precision."),
+}
+for _pid, (_t, _x) in EXTRA6.items():
+    tech, text, note, ref = CLAIMED[_pid]
+    CLAIMED[_pid] = (tech + _t, text + _x, note, ref)
+
 PENDING_REASON = "static check for this property is designed in DESIGN.md §3 but not yet built in this revision of /verif; not claimed until it runs"
 
 def main():
